@@ -267,6 +267,7 @@ def run(repo: Repo, rep: Report, tier: str) -> None:
     for tbl in ("signal_refs", "entity_refs"):
         stores = [n for n in walk_local(inl.node) if isinstance(n, ast.Assign) and norm(n.targets[0]) == f"self.parent.{tbl}"]
         if not stores:
+            n9 += 1
             rep.bad("C15-R9", f"lower_function_call_inline restores {tbl}", f"no store to self.parent.{tbl} after the body: declarations of the callee stay visible in the caller", inl.loc())
             continue
         for st in stores:
